@@ -3,7 +3,7 @@
 
   tools/seeded.py confirm <dir>            # tests pass with patch; demo fails with, passes without
   tools/seeded.py run <dir> [PID ...] [--tier quick]   # run checks against a scratch copy with the patch
-  tools/seeded.py all [--tier quick]       # run every seeded/<id> against its property's check
+  tools/seeded.py all [--tier quick] [--jobs N]   # run every seeded/<id> against its property's check (and its also_run checks)
 
 Scratch copies live under /tmp/vmut.* and are removed afterwards.
 """
@@ -99,7 +99,13 @@ def main(argv):
             i = argv.index('--root')
             root = os.path.join(HERE, argv[i + 1])
             del argv[i:i + 2]
+        jobs = 1
+        if '--jobs' in argv:
+            i = argv.index('--jobs')
+            jobs = int(argv[i + 1])
+            del argv[i:i + 2]
         only = argv[1:]
+        todo = []
         for name in sorted(os.listdir(root)):
             sd = os.path.join(root, name)
             if not os.path.isdir(sd):
@@ -107,10 +113,20 @@ def main(argv):
             meta = json.load(open(os.path.join(sd, 'meta.json')))
             if only and meta['property'] not in only and name not in only:
                 continue
-            pids = meta.get('also_run', []) + [meta['property']]
-            for pid, r in run(sd, sorted(set(pids)), tier).items():
+            todo.append((name, sd, sorted(set(meta.get('also_run', []) + [meta['property']]))))
+
+        def one(item):
+            name, sd, pids = item
+            out = []
+            for pid, r in run(sd, pids, tier).items():
                 verdict = {0: 'MISSED', 1: 'CAUGHT'}.get(r['exit'], f"EXIT{r['exit']}")
-                print(f'{name} {pid} {verdict} {r["wall"]}s  {(r["lines"] or [""])[0][:160]}', flush=True)
+                out.append(f'{name} {pid} {verdict} {r["wall"]}s  {(r["lines"] or [""])[0][:160]}')
+            return out
+        from concurrent.futures import ThreadPoolExecutor
+        with ThreadPoolExecutor(max_workers=jobs) as ex:
+            for lines in ex.map(one, todo):
+                for ln in lines:
+                    print(ln, flush=True)
 
 
 if __name__ == '__main__':
